@@ -148,7 +148,8 @@ class Engine:
             return True
         if goal is False:
             goal = z3.BoolVal(False)
-        r, s = self.check(pc, [z3.Not(goal)])
+        facts = self.c.facts() if hasattr(self.c, "facts") else []
+        r, s = self.check(list(facts) + list(pc), [z3.Not(goal)])
         ms = (time.time() - t) * 1000
         model = None
         if r == z3.unsat:
@@ -213,6 +214,8 @@ class Engine:
             return [(env, pc)]
         if isinstance(s, ast.Pass):
             return [(env, pc)]
+        if isinstance(s, ast.FunctionDef):
+            return [(env, pc)]  # nested helper: verified on its own, seen here only through its contract
         if isinstance(s, ast.Assign):
             v = self.ev(s.value, env, pc)
             for t in s.targets:
@@ -245,6 +248,10 @@ class Engine:
     def branch(self, c, body, orelse, env, pc, where):
         if isinstance(c, bool):
             return self.block(body if c else orelse, env, pc)
+        if isinstance(c, int):
+            return self.block(body if c != 0 else orelse, env, pc)
+        if is_z3(c) and z3.is_int(c):
+            c = c != 0
         if not z3.is_bool(c):
             raise Unsupported("non-boolean condition at %s" % where)
         out = []
@@ -410,6 +417,10 @@ class Engine:
             return a // b if isinstance(a, int) and isinstance(b, int) else zint(a) / zint(b)
         if isinstance(op, ast.Mod):
             return a % b
+        if isinstance(op, ast.RShift) and isinstance(b, int) and b >= 0:
+            return a >> b if isinstance(a, int) else zint(a) / (2**b)
+        if isinstance(op, ast.BitAnd) and b == 1:
+            return a & 1 if isinstance(a, int) else zint(a) % 2
         raise Unsupported("operator %s" % type(op).__name__)
 
     def ev(self, e, env, pc):
@@ -485,6 +496,9 @@ class Engine:
                 return ("modattr", o[1], e.attr)
             if isinstance(o, Shaped) and e.attr == "shape":
                 return o.shape
+            hook = getattr(self.c, "attr_of", None)
+            if hook:
+                return hook(self, o, e.attr)
             raise Unsupported("attribute %s" % ast.unparse(e))
         if isinstance(e, ast.Call):
             return self.call(e, env, pc)
